@@ -62,6 +62,8 @@ type lwDef struct {
 	measMode    int
 	constSeries bool // groundwater series with one level throughout: a constant groundwater depth
 	measShort   bool    // the measurement file has the short layout: readings for 0-9 dm only
+	heights     *[3]float64 // weather files with the third header line (altitude, wind height, base CO2)
+	leachAbove  bool    // leaching depth above the profile bottom (outside C02's quantifier)
 	rootDepth   int     // soil root depth (dm); 0 = min(profile, 12)
 	lat         float64 // latitude; 0 = default
 	initW, initN float64
@@ -129,6 +131,18 @@ func lwDefs() []lwDef {
 		{name: "sand20-short-volumetric-sampling", soil: "sand20", gw: 99, et: 3, start: s1, days: 560, initW: 0.6, initN: 25, measOff: 210, measMode: 3, measShort: true,
 			rot:  []proj.CropEntry{{Crop: "WW", Sow: "2001-09-25", Harvest: "2002-08-05", Rex: 50}, {Crop: "SM", Sow: "2003-04-25", Harvest: "2003-10-10"}},
 			fert: []proj.Fert{{Date: "2002-03-01", Amount: 60, Kind: "KAS"}, {Date: "2002-04-10", Amount: 60, Kind: "KAS"}}},
+		{name: "loam-station-heights-potmin1", soil: "loam12", gw: 99, et: 3, start: s1, days: 560, initW: 0.6, initN: 30, heights: &[3]float64{320, 10, 0},
+			cfg:  map[string]string{"PotMineralisation": "1", "CO2method": "1", "CO2concentration": "500"},
+			rot:  []proj.CropEntry{{Crop: "WW", Sow: "2001-09-25", Harvest: "2002-08-05", Rex: 50}, {Crop: "K", Sow: "2003-04-20", Harvest: "2003-09-20"}},
+			fert: []proj.Fert{{Date: "2002-03-10", Amount: 90, Kind: "KAS"}}},
+		{name: "sand-heights-co2-per-year-files", soil: "sand20", gw: 99, et: 5, start: s2, days: 520, initW: 0.6, initN: 30, heights: &[3]float64{40, 2.5, 420},
+			cfg:  map[string]string{"CO2method": "3", "CO2StomataInfluence": "1"},
+			rot:  []proj.CropEntry{{Crop: "SW", Sow: "2002-03-25", Harvest: "2002-08-20", Rex: 50}, {Crop: "WW", Sow: "2002-10-01", Harvest: "2003-08-05"}},
+			fert: []proj.Fert{{Date: "2002-04-10", Amount: 70, Kind: "KAS"}}},
+		{name: "silt-leaching-depth-9", soil: "silt20", gw: 14, et: 3, start: s2, days: 520, initW: 0.8, initN: 60, leachAbove: true,
+			cfg:  map[string]string{"LeachingDepth": "9"},
+			rot:  []proj.CropEntry{{Crop: "SM", Sow: "2002-04-25", Harvest: "2002-10-10", Rex: 0}, {Crop: "WW", Sow: "2002-10-20", Harvest: "2003-08-05"}},
+			fert: []proj.Fert{{Date: "2002-05-20", Amount: 120, Kind: "KAS"}}},
 		{name: "loam-constant-series-12", soil: "silt20", gw: 99, series: [][2]float64{{-5, 12}, {100, 12}, {333, 12}, {500, 12}}, constSeries: true, et: 3, start: s2, days: 520, initW: 0.7, initN: 30,
 			rot:  []proj.CropEntry{{Crop: "SW", Sow: "2002-03-25", Harvest: "2002-08-20", Rex: 50}, {Crop: "WW", Sow: "2002-10-01", Harvest: "2003-08-05"}},
 			fert: []proj.Fert{{Date: "2002-04-10", Amount: 70, Kind: "KAS"}, {Date: "2003-03-10", Amount: 90, Kind: "KAS"}}},
@@ -154,6 +168,12 @@ func lwWeather(start time.Time, n, variant int) []proj.Day {
 			switch {
 			case doy >= 180 && doy < 235:
 				w[i] = c09Blocks["hot-drought"]
+				if doy%11 == 0 { // single days of extreme heat
+					w[i].Tmin, w[i].Tavg, w[i].Tmax = 27, 34.5, 42
+				}
+				if doy%13 == 0 {
+					w[i].Tmin, w[i].Tavg, w[i].Tmax = 31, 38.5, 46
+				}
 			case doy < 35 || doy > 355:
 				w[i] = c09Blocks["frost"]
 			case i%60 == 30:
@@ -219,6 +239,7 @@ func lwBuild(sp lwSpec) *lwInfo {
 	if df.lat != 0 {
 		p.Config["Latitude"] = fmt.Sprint(df.lat)
 	}
+	p.Heights = df.heights
 	p.SunColumn = df.et == 4
 	if df.et == 5 {
 		p.Layout = 1
